@@ -433,6 +433,10 @@ class Ctx(object):
 
 def begin(mode):
     """Start an execution: fresh log, mode, no arms."""
+    gc.collect()
+    for t in list(instr.TRACKED):
+        if t.vf_started and t.is_alive():
+            instr._RealThread.join(t, 0.5)
     instr.reset_case()
     instr.set_mode(mode)
 
@@ -466,7 +470,7 @@ def end(ctx, res=None):
                 # parked again (e.g. executor never shut down): wake once more
                 instr.release_all_waiters()
                 instr._RealThread.join(t, 1.0)
-                if t.is_alive():
+                if t.is_alive() and "-internal" not in t.vf_role:
                     stuck.append(t.vf_role)
     for a in ctx.actors:
         if a.is_alive():
